@@ -180,6 +180,18 @@ let run line =
             fuelled (Option.map (function None -> "RAISE"
                                         | Some s -> String.concat " " ("S" :: List.map (fun c -> string_of_int (int_of_n c)) s))
                        (pretty f n o p))
+  | "PRI" -> (* pretty (p.instantiate delta): the printed argument order of an instantiated notation application *)
+            let simp = (next t = "1") in let k = int t in
+            let ids = times k (fun () -> int t) in
+            let nts = List.rev (List.map (fun i -> try Hashtbl.find nots i with Not_found -> raise Bad) ids) in
+            let o = { o_simplify = simp; o_notations = nts; o_syms = !syms } in
+            let p = term t in let d = delta t in
+            (match py_inst f n p d with
+             | None -> "FUEL"
+             | Some q ->
+            fuelled (Option.map (function None -> "RAISE"
+                                        | Some s -> String.concat " " ("S" :: List.map (fun c -> string_of_int (int_of_n c)) s))
+                       (pretty f n o q)))
   | "EMIT" -> let k = int t in let cs = times k (fun () -> call t) in
       let bs = emits [] cs in
       let ints l = String.concat " " (List.map (fun c -> string_of_int (int_of_n c)) l) in
